@@ -10,6 +10,8 @@ from pymemcache.exceptions import MemcacheServerError
 
 PROPERTY = "C12"
 LEVEL = "exploration"
+# parts repeated in a child interpreter started with -O and with warnings turned into errors (vlib/runner.py, MODES)
+MODE_PARTS = {"OW": ['grid']}
 RULE = ("case = 1-5 servers (TCP host:port and UNIX paths, each its own memcached model behind one fake network), "
         "use_pooling on/off, key prefix, 0-50 distinct keys (str or bytes, one spelling per key; some given as "
         "(server_key, key) pairs), and a script: half the keys written by set, the rest by one set_many, then "
